@@ -110,6 +110,14 @@ CLAIMED = {
              'fields below 60, plausible speed of the printed value, two-decimal field marks within 1.2 x record, integer multi-event scores, idempotence by running the real function on its own symbolic result) are decided per path.',
         note='Doubles are modelled by their exact real values under a stated gap assumption (quantities have at most three decimals; comparisons against 0.5/10/11/60/100/1.2*record); number formatting by the correct-rounding contract. '
              'Five known findings (non-idempotent corner cases of the heuristics), four fixed defects.'),
+    'C18': dict(
+        category='model_checking', design_ref='DESIGN.md section 3 C18',
+        technique='differential symbolic execution: the JavaScript sources are parsed by node\'s acorn and interpreted (jsrun) on the same symbolic inputs, in the same engine path, as their Python twins loaded through the symrun hook; '
+                  'z3 (cvc5 fallback) decides python == javascript per path; a QF_BVFP lemma (cvc5) for parseInt(a / 60); counterexamples and every path witness replayed under the real node and the plain library',
+        text='Every ported pair runs on one symbolic input (marks k/100, whole numbers, digit-cell texts with symbolic separators, durations S + V/1e8, digit strings x precision); the obligation of each path is equality of the two results or refusal by both. '
+             'Identical operation sequences give identical terms (decided by the simplifier), any difference goes to the solver. The duplicated tables and the normalisation of every table key are compared exhaustively (finite).',
+        note='Doubles are reals with a monotone rounding function, so a counterexample is a candidate until node and python reproduce it (replayed before reporting); NaN from JavaScript counts as a refusal; texts with signs, blanks, exponents or radix prefixes and the '
+             'pattern language of patterns.js are outside the claim. Quick tier samples (event, age, form) triples of the Tyrving tables; thorough runs all of them. Seven defects fixed (six in js/src, one in athlib/tyrving_score.py).'),
 }
 
 NOT_APPLICABLE = {
@@ -156,6 +164,8 @@ def main():
         'engines': [
             {'name': 'symrun', 'path': 'symrun/', 'serves_properties': sorted(k for k in CLAIMED if k != 'C04'),
              'kind_free_text': 'native symbolic execution of the real athlib source on proxy values (import hook + shadow builtins), path conditions and obligations discharged by z3 / cvc5'},
+            {'name': 'jsrun', 'path': 'jsrun/', 'serves_properties': ['C18'],
+             'kind_free_text': 'interpreter for the ESTree (node acorn) of js/src over the symrun values, so that the JavaScript port runs symbolically beside its Python twin; nodecall.js replays under the real node'},
             {'name': 'relang', 'path': 'vlib/relang.py', 'serves_properties': ['C04'],
              'kind_free_text': 'compiled regex -> z3 regular language; emptiness / equivalence queries'},
         ],
